@@ -524,6 +524,51 @@ pub fn bound_parse_rule(cx: &Cx, rep: &mut Report) {
     rep.check(assigns_true, "DM-bound-parse", &pushf.qual, "dotdot-true", "`..` does not set the continue flag to true", &site(&pushf), json!({}));
 }
 
+/// DM-bound-syntax: how one item of `bound(...)` is read: `..` => continue marker; else a where-predicate if one parses
+/// (and then the input is advanced past it); else a type; else the predicate's error
+pub fn bound_syntax_rule(cx: &Cx, rep: &mut Report) {
+    let ix = &cx.ix;
+    let Some(f) = find_fn(ix, &|f| f.self_ty.as_deref() == Some("Bound") && f.is_trait_impl.is_some() && sig_text(f).contains("ParseStream")) else {
+        rep.fail("unanalysable", "Bound::parse", "not-found", "impl Parse for Bound not found", "bound.rs", json!({})); return;
+    };
+    let ev = mk_ev(ix);
+    let outs = ev.call_fn(St::new(), &f, None, vec![sym("ParseStream", "input")]);
+    if std::env::var("GENLINT_DEBUG_WCB").is_ok() { for (st, fl) in &outs { eprintln!("BS [{}] {:?} -> {}", crate::model::cond_str(&st.cond), notes(st), match fl { Flow::Val(v) | Flow::Ret(v) => v.short(), _ => "?".into() }); } eprintln!("UNSUP {:?}", ev.unsupported.borrow()); }
+    rep.unanalysable(&f.qual, &ev.unsupported.borrow());
+    // the variants by what they hold
+    let Some(ed) = ix.enums.get("Bound") else { rep.fail("unanalysable", "Bound", "enum", "enum Bound not found", "bound.rs", json!({})); return; };
+    let by_payload = |pred: &dyn Fn(&str) -> bool| ed.variants.iter().zip(ed.variant_fields.iter()).find(|(_, fs)| fs.len() == 1 && pred(&crate::index::ty_str(&fs[0].1))).map(|(n, _)| n.clone());
+    let (Some(vp), Some(vt), Some(vd)) = (by_payload(&|t| t.ends_with("WherePredicate")), by_payload(&|t| t == "Type" || t.ends_with("::Type")), by_payload(&|t| t.contains("Token!"))) else {
+        rep.fail("unanalysable", "Bound", "variants", "enum Bound { (Type), (WherePredicate), (Token![..]) } not found", "bound.rs", json!({})); return;
+    };
+    let mut seen = [false; 4];
+    let mut bad: Vec<String> = Vec::new();
+    for (st, fl) in &outs {
+        let v = match fl { Flow::Val(v) | Flow::Ret(v) => v, _ => { bad.push("a path that does not return".into()); continue } };
+        let (mut peek, mut fork_ok, mut in_ok) = (None, None, None);
+        for (a, b) in st.cond.iter() {
+            let sense = if a.contains(" is Err") { !*b } else { *b };
+            if a.contains(".peek(") { if a.contains("Token![..]") { peek = Some(sense); } else { bad.push(format!("a lookahead other than `..`: {a}")); } }
+            else if a.contains(".fork(") { fork_ok = Some(sense); }
+            else if a.contains(".parse($input)") { in_ok = Some(sense); }
+        }
+        let ok_of = |var: &str| match v { Val::Enum { ty, var: o, args } if ty == "Result" && o == "Ok" => matches!(args.first(), Some(Val::Enum { ty: t2, var: v2, .. }) if t2 == "Bound" && v2 == var), _ => false };
+        let payload_mentions = |what: &str| match v { Val::Enum { args, .. } => args.first().map(|x| x.short().contains(what)).unwrap_or(false), _ => false };
+        let is_err = matches!(v, Val::Enum { ty, var, .. } if ty == "Result" && var == "Err");
+        let advanced = notes(st).iter().any(|n| n.contains(".advance_to("));
+        let desc = format!("[{}] -> {}", crate::model::cond_str(&st.cond), v.short());
+        match (peek, fork_ok, in_ok) {
+            (Some(true), _, _) => { seen[0] = true; if !(ok_of(&vd) || is_err) { bad.push(format!("`..` is not read as the continue marker: {desc}")); } }
+            (Some(false), Some(true), _) => { seen[1] = true; if !(ok_of(&vp) && payload_mentions(".fork(") && advanced) { bad.push(format!("a parsable where-predicate is not taken as the predicate read (and the input advanced past it): {desc}")); } }
+            (Some(false), Some(false), Some(true)) => { seen[2] = true; if !(ok_of(&vt) && !payload_mentions(".fork(")) { bad.push(format!("what is not a predicate but a type is not taken as that type: {desc}")); } }
+            (Some(false), Some(false), Some(false)) => { seen[3] = true; if !is_err { bad.push(format!("neither predicate nor type is not an error: {desc}")); } }
+            _ => bad.push(format!("a path not decided by `..` lookahead, predicate parse, type parse: {desc}")),
+        }
+    }
+    bad.sort(); bad.dedup();
+    rep.check(seen.iter().all(|x| *x) && bad.is_empty(), "DM-bound-syntax", &f.qual, "item-kinds", &format!("one item of bound(...) is not read as: `..` => continue marker; else a where-predicate; else a type; else an error ({:?}; {})", seen, bad.join("; ")), &site(&f), json!({}));
+}
+
 /// DM-wcb: the where-clause builder records what is pushed and emits all of it
 pub fn wcb_rule(cx: &Cx, rep: &mut Report) {
     let ix = &cx.ix;
@@ -887,6 +932,62 @@ pub fn helper_name_rule(cx: &Cx, rep: &mut Report, owner: &str, want: &str) {
     let mut names = std::collections::BTreeSet::new();
     for (st, _) in &outs { for e in &st.events { if let Event::Push { func, args, .. } = e { if *func == single.qual { if let Some(n) = args.get(1) { names.insert(n.clone()); } } } } }
     rep.check(names.len() == 1 && names.iter().next() == Some(&format!("{want:?}")), "DM-attr-names", &parser.qual, want, &format!("the `#[{want}]` helper attribute is looked up under {names:?}"), &site(&parser), json!({}));
+}
+
+/// DM-attr-fields: what a comparison helper attribute says is what the parsed record holds - each of ignore / reverse /
+/// by / key / bound comes from the argument of that name alone, whatever else the attribute carries
+pub fn attr_fields_rule(cx: &Cx, rep: &mut Report) {
+    let ix = &cx.ix;
+    let owner = "HelperAttributeForCompareOp";
+    let Some(parser) = find_fn(ix, &|f| f.self_ty.as_deref() == Some(owner) && sig_text(f).contains("&[Attribute]") && sig_text(f).contains("Result<")) else {
+        rep.fail("unanalysable", owner, "parser", "attribute parser (attrs, op) -> Result<Self> not found", "item_type/compare_op.rs", json!({})); return;
+    };
+    let Some(single) = find_fn(ix, &|f| f.self_ty.is_none() && sig_text(f).contains("&[Attribute]") && sig_text(f).contains("&str") && sig_text(f).contains("Result<Option<T>>")) else { return };
+    let mut ev = mk_ev(ix);
+    ev.stops.push((single.qual.clone(), "ret"));
+    ev.stops.push(("Bounds::from".into(), "opaque"));
+    let outs = ev.call_fn(St::new(), &parser, None, vec![Val::Sym { ty: Ty::Slice(Box::new(Ty::Named("Attribute".into(), vec![]))), path: "attrs".into() }, sym("CompareOp", "op")]);
+    rep.unanalysable(&parser.qual, &ev.unsupported.borrow());
+    if std::env::var("GENLINT_DEBUG_WCB").is_ok() { for (st, fl) in &outs { eprintln!("AF [{}] -> {}", crate::model::cond_str(&st.cond), match fl { Flow::Val(v) | Flow::Ret(v) => v.short(), _ => "?".into() }); } }
+    // the argument names of the attribute: the fields of the args struct named in the parser's lookup
+    let arg_names: Vec<String> = ix.structs.get("ArgsForCompareOp").map(|s| s.fields.iter().map(|(n, _)| n.clone()).collect()).unwrap_or_default();
+    if arg_names.len() < 4 { rep.fail("unanalysable", owner, "args", "the argument struct of the comparison helper attributes was not found", "item_type.rs", json!({})); return; }
+    // which argument a symbolic path reads: `<lookup>.ok.?.0.<arg>...`
+    fn arg_of(path: &str, args: &[String]) -> Option<String> {
+        let tail = path.rsplit_once(".ok.")?.1;
+        tail.split(|c: char| c == '.' || c == '[').find(|seg| args.iter().any(|a| a == seg)).map(|x| x.to_string())
+    }
+    let mut judged = 0;
+    let mut bad: Vec<String> = Vec::new();
+    for (st, fl) in &outs {
+        let (Flow::Val(Val::Enum { var, args, .. }) | Flow::Ret(Val::Enum { var, args, .. })) = fl else { continue };
+        if var != "Ok" { continue; }
+        let Some(Val::Struct { fields, .. }) = args.first() else { continue };
+        let present = st.cond.iter().any(|(a, b)| *b && a.ends_with(".ok") && a.contains('#'));
+        if !present { continue; }
+        // no decision may hinge on what the attribute contains
+        for (a, _) in st.cond.iter() {
+            if let Some(x) = arg_of(a, &arg_names) { bad.push(format!("what is recorded depends on a test of `{x} = ..` ({a})")); }
+        }
+        let mut used: Vec<(String, String)> = Vec::new();
+        for (fname, v) in fields {
+            let cell = std::cell::RefCell::new(std::collections::BTreeSet::new());
+            v.any(&|y| { if let Val::Sym { path, .. } = y { if let Some(x) = arg_of(path, &arg_names) { cell.borrow_mut().insert(x); } } false });
+            let srcs = cell.into_inner();
+            judged += 1;
+            if srcs.len() != 1 { bad.push(format!("`{fname}` is filled from {:?}, not from exactly one argument", srcs)); continue; }
+            let src = srcs.into_iter().next().unwrap();
+            // names are compared when they are related at all (bound / bounds)
+            let related = arg_names.iter().find(|a| fname.starts_with(a.as_str()) || a.starts_with(fname.as_str()));
+            if let Some(r) = related { if *r != src { bad.push(format!("`{fname}` is filled from the argument `{src}`")); } }
+            used.push((fname.clone(), src));
+        }
+        let distinct: std::collections::BTreeSet<&String> = used.iter().map(|(_, s)| s).collect();
+        if distinct.len() != used.len() { bad.push(format!("two parts of the record are filled from the same argument: {used:?}")); }
+    }
+    bad.sort(); bad.dedup();
+    rep.floor("parsed helper-attribute record fields judged", judged, 20);
+    rep.check(bad.is_empty(), "DM-attr-fields", &parser.qual, "record", &format!("a comparison helper attribute is not recorded argument by argument (each of ignore / reverse / by / key / bound from the argument of that name alone): {}", bad.join("; ")), &site(&parser), json!({}));
 }
 
 /// DM-default-placeholder: `#[default(_)]` means "no value" (only bounds), anything else is the value
